@@ -50,7 +50,8 @@ type core struct {
 	stream   *gortsplib.ServerStream
 	sessions []*sessRec
 	bySess   map[*gortsplib.ServerSession]*sessRec
-	conns    map[int]*connRec // by remote port
+	conns    map[string]*connRec                // by remote address (ip:port) until a client claims it
+	byConn   map[*gortsplib.ServerConn]*connRec // every connection that is open or not yet collected
 	calls    map[string]int
 }
 
@@ -58,7 +59,8 @@ func newCore() *core {
 	return &core{
 		changed: make(chan struct{}),
 		bySess:  map[*gortsplib.ServerSession]*sessRec{},
-		conns:   map[int]*connRec{},
+		conns:   map[string]*connRec{},
+		byConn:  map[*gortsplib.ServerConn]*connRec{},
 		calls:   map[string]int{},
 		outs:    map[string]outcome{},
 	}
@@ -128,18 +130,20 @@ func (o outcome) error() error {
 type hBase struct{ c *core }
 
 func (h hBase) OnConnOpen(ctx *gortsplib.ServerHandlerOnConnOpenCtx) {
-	port := ctx.Conn.NetConn().RemoteAddr().(*net.TCPAddr).Port
+	addr := ctx.Conn.NetConn().RemoteAddr().(*net.TCPAddr)
 	h.c.mu.Lock()
-	h.c.conns[port] = &connRec{sc: ctx.Conn, port: port}
+	r := &connRec{sc: ctx.Conn, port: addr.Port}
+	h.c.conns[addr.String()] = r
+	h.c.byConn[ctx.Conn] = r
 	h.c.notify()
 	h.c.mu.Unlock()
 }
 
 func (h hBase) OnConnClose(ctx *gortsplib.ServerHandlerOnConnCloseCtx) {
-	port := ctx.Conn.NetConn().RemoteAddr().(*net.TCPAddr).Port
 	h.c.mu.Lock()
-	if r, ok := h.c.conns[port]; ok && r.sc == ctx.Conn {
+	if r, ok := h.c.byConn[ctx.Conn]; ok {
 		r.closed = true
+		delete(h.c.byConn, ctx.Conn)
 	}
 	h.c.notify()
 	h.c.mu.Unlock()
@@ -166,6 +170,11 @@ func (h hBase) OnSessionClose(ctx *gortsplib.ServerHandlerOnSessionCloseCtx) {
 	h.c.notify()
 	h.c.mu.Unlock()
 }
+
+// the library logs decode errors and lost packets to stderr unless these are implemented
+func (h hBase) OnDecodeError(_ *gortsplib.ServerHandlerOnDecodeErrorCtx)           {}
+func (h hBase) OnPacketsLost(_ *gortsplib.ServerHandlerOnPacketsLostCtx)           {}
+func (h hBase) OnStreamWriteError(_ *gortsplib.ServerHandlerOnStreamWriteErrorCtx) {}
 
 type hDescribe struct{ c *core }
 
